@@ -122,8 +122,19 @@ func main() {
 					}
 				}
 			}
-			input := fmt.Sprintf("shard metric=%d keymetric=%d fk=%d fk2=%d strat=%q num=%d cnt=%d ns=%d ts=%d tags=%v stags=%q",
-				m.MetricID, key.Metric, m.ShardFixedKey, m.ShardFixedKey2, m.ShardStrategy, m.ShardNum, cnt, ns, t1, key.Tags, key.STags)
+			tagsTxt := ""
+			for ti, tv := range key.Tags {
+				if tv != 0 {
+					tagsTxt += fmt.Sprintf(" t%d=%d", ti, tv)
+				}
+			}
+			for ti, tv := range key.STags {
+				if tv != "" {
+					tagsTxt += fmt.Sprintf(" s%d=%s", ti, tv)
+				}
+			}
+			input := fmt.Sprintf("shard metric=%d keymetric=%d fk=%d fk2=%d strat=%q num=%d cnt=%d ns=%d ts=%d%s",
+				m.MetricID, key.Metric, m.ShardFixedKey, m.ShardFixedKey2, m.ShardStrategy, m.ShardNum, cnt, ns, t1, tagsTxt)
 			term := fmt.Sprintf("CShard %s %d %s %d %d %d %s %d %s %s %s", vu.Z(int64(key.Metric)), kh, metaTerm(m), cnt, ns,
 				raw, vu.B(rawok), n1, vu.B(ok), vu.OptZ(n2 >= 0, int64(n2)), vu.Z(int64(nT2)))
 			line := o.Case(input, term, ok || n2 >= 0, "shard/"+stratName(m.ShardStrategy))
@@ -169,6 +180,14 @@ func main() {
 				}
 				if spare && rep == int(ts%3) {
 					o.Fail("spare_differs_from_primary", line, input)
+				}
+			}
+			// "the two remaining replicas share spare traffic": with the primary dead and both others alive,
+			// the two seconds of a six-second period that share this primary go to different spares
+			if p := int(ts % 3); !alive[p] && alive[(p+1)%3] && alive[(p+2)%3] && ts < math.MaxUint32-8 {
+				r2, sp2 := v.ReplicaForSecond(sh, ts+3)
+				if !spare || !sp2 || r2 == rep {
+					o.Fail("spares_share_traffic", line, input)
 				}
 			}
 		}
